@@ -11,7 +11,10 @@
                                         edit_file_recursive reads (the read phase never writes)
      normpath dirname join              os.path.normpath / dirname / join (posixpath)
      ppath                              str(pathlib.Path(p))
-     canon                              which file a spelling denotes (os.path.abspath w.r.t. the cwd)
+     canon                              which file a spelling denotes (os.path.abspath w.r.t. the cwd; a leading
+                                        "//" is "/" as on Linux)
+     prefixes                           the directories the OS walks through to resolve a spelling, component by
+                                        component ("x/../m" needs x to exist although canon drops it)
      w_translate                        true  = files are opened with newline=None (universal newlines:
                                                 "\r\n" and "\r" arrive as "\n")
                                         false = files are opened with newline=''   (no translation)
@@ -84,6 +87,7 @@ Record world := mkworld {
   join : path -> path -> path;
   ppath : path -> path;
   canon : path -> path;
+  prefixes : path -> list path;
   escape : path -> path;
   w_translate : bool;
   w_guard : bool;
@@ -93,32 +97,40 @@ Record world := mkworld {
 Section WithWorld.
 Variable W : world.
 
+(* every directory component of the spelling exists (else FileNotFoundError / NotADirectoryError) *)
+Definition traversable (fs : fsys) (p : path) : bool :=
+  forallb (fun d => mem d (fs_dirs fs)) (prefixes W p).
+
 (* open(p).read() / Path.read_text() *)
 Definition fs_read (fs : fsys) (p : path) : option str :=
-  match lookup (canon W p) (fs_files fs) with
-  | None => None                                      (* FileNotFoundError *)
-  | Some raw => Some (if w_translate W then univ_nl raw else raw)
-  end.
+  if traversable fs p then
+    match lookup (canon W p) (fs_files fs) with
+    | None => None                                      (* FileNotFoundError / IsADirectoryError *)
+    | Some raw => Some (if w_translate W then univ_nl raw else raw)
+    end
+  else None.
 
 (* open(p, 'w').write(s) / Path.write_text(s): the parent directory must exist.
    (POSIX: os.linesep = "\n", so text mode writes "\n" as "\n" whatever `newline` is.) *)
 Definition fs_write (fs : fsys) (p : path) (s : str) : option fsys :=
-  if mem (dirname W (canon W p)) (fs_dirs fs)
+  if traversable fs p && mem (dirname W (canon W p)) (fs_dirs fs)
+     && negb (mem (canon W p) (fs_dirs fs))            (* a directory in the way: IsADirectoryError *)
   then Some (mkfs (set (canon W p) s (fs_files fs)) (fs_dirs fs))
   else None.
 
 Definition fs_unlink (fs : fsys) (p : path) : option fsys :=
-  if has (canon W p) (fs_files fs)
+  if traversable fs p && has (canon W p) (fs_files fs)
   then Some (mkfs (remove (canon W p) (fs_files fs)) (fs_dirs fs))
   else None.
 
-(* os.makedirs(d, exist_ok=True): '' -> FileNotFoundError; a regular file in the way -> FileExistsError.
-   (Intermediate directories are created too; no operation of the editor can observe them.) *)
+(* os.makedirs(d, exist_ok=True): '' -> FileNotFoundError; a regular file at d or at one of the components
+   it walks through -> FileExistsError / NotADirectoryError; otherwise d and every missing component exist
+   afterwards (makedirs('x/..') creates x). *)
 Definition fs_makedirs (fs : fsys) (d : path) : option fsys :=
   match d with
   | [] => None
-  | _ => if has (canon W d) (fs_files fs) then None
-         else Some (mkfs (fs_files fs) (canon W d :: fs_dirs fs))
+  | _ => if has (canon W d) (fs_files fs) || existsb (fun q => has q (fs_files fs)) (prefixes W d) then None
+         else Some (mkfs (fs_files fs) (canon W d :: prefixes W d ++ fs_dirs fs))
   end.
 
 (* ---- _get_include_paths ---------------------------------------------------------------------
@@ -203,7 +215,8 @@ Fixpoint unlink_all (fs : fsys) (ks : list path) : fsys * list op * eres unit :=
 Definition removed_keys (texts : list (path * str)) (files' : list (path * model W)) : list path :=
   filter (fun k => negb (has k files')) (keys texts).
 
-(* updated_text != texts.get(current_path) *)
+(* updated_text != texts.get(current_path): for a key that was not read, .get gives None, and None differs
+   from every string - "" included - so a new entry is always written (an option, not a default "") *)
 Definition differs (upd : str) (old : option str) : bool :=
   match old with Some t => negb (str_eqb upd t) | None => true end.
 
